@@ -418,6 +418,32 @@ def report_violation(ctx, key, what, replay_src=None, payload=None):
     return True
 
 
+def tlaps(ctx, module, timeout=900):
+    """Run the TLA+ proof system on spec/<module>.tla (an unbounded proof next to TLC's bounded runs).  Returns a dict for the
+    coverage; a proof that does not go through (or a tool failure) is a NOTE in the evidence, never a verdict: verdicts only
+    come from the real code."""
+    d = _copy_specs(ctx, "tlaps_" + module)
+    t = time.time()
+    cmd = ["timeout", str(timeout), "tlapm", "--threads", str(max(2, min(6, ctx.cores // 2))), "--cleanfp", module + ".tla"]
+    try:
+        p = subprocess.run(cmd, cwd=d, stdout=subprocess.PIPE, stderr=subprocess.STDOUT, text=True, errors="replace", timeout=timeout + 60)
+        out = p.stdout or ""
+    except (subprocess.TimeoutExpired, OSError) as ex:
+        out = "tlapm could not be run: %s" % ex
+    res = {"module": module, "checker_cmd": "tlapm --cleanfp %s.tla" % module, "wall_s": round(time.time() - t, 1)}
+    m = re.search(r"All (\d+) obligations? proved", out)
+    if m:
+        res["obligations"] = res["discharged"] = int(m.group(1))
+    else:
+        m = re.search(r"(\d+)/(\d+) obligations? failed", out)
+        if m:
+            res["obligations"], res["discharged"] = int(m.group(2)), int(m.group(2)) - int(m.group(1))
+        res["problem"] = out[-600:]
+        ctx.notes.append("TLAPS proof %s did not go through in this run (not a verdict): %s" % (module, out[-300:]))
+    res["trusted_base"] = ["tlapm 1.6.0-pre", "Zenon", "Isabelle/TLA+", "SMT back ends"]
+    return res
+
+
 def finish(ctx, level, coverage, assumptions=(), extra=None):
     os.makedirs(EVIDENCE, exist_ok=True)
     ev = {
